@@ -104,6 +104,7 @@ func (r *Report) Finish() int {
 	var failed []failure
 	engineErr := false
 	var solverS float64
+	crossChecked := 0
 	backends := map[string]int{}
 	var samples []map[string]any
 	var abstractions []string
@@ -125,6 +126,9 @@ func (r *Report) Finish() int {
 			if o.Res.Status == "unsat" {
 				ok++
 				backends[o.Res.Solver]++
+				if o.Cross != "" {
+					crossChecked++
+				}
 				if len(samples) < 12 && (o.Kind == "ensures" || o.Kind == "invariant-preserved" || len(samples) < 4) {
 					samples = append(samples, map[string]any{"obligation": o.Name, "clause": o.Clause, "solver": o.Res.Solver, "seconds": round3(o.Res.Seconds)})
 				}
@@ -309,6 +313,7 @@ func (r *Report) Finish() int {
 				"functions_under_contract": funcs,
 				"backends":               backends,
 				"solver_seconds":         round3(solverS),
+				"cross_checked":          crossChecked,
 				"folded_by_generator":    r.Ctx.folded,
 				"failed_obligations":     failedNames,
 				"known_findings_hit":     knownHit,
